@@ -71,11 +71,7 @@ def run(tier):
             rr = r["runs"][o]
             meta.append((len(recs), i, "O%d" % o, "ledger"))
             recs.append(dict(e="reset", id="C05-%d-O%d" % (i, o)))
-            if rr["ledger"] and os.path.exists(rr["ledger"]):
-                for ln in open(rr["ledger"]):
-                    ev = json.loads(ln)
-                    if ev["e"] == "h":
-                        recs.append(ev)
+            recs += vlib.read_ledger(rr["ledger"])
             recs.append(dict(e="end", normal=(rr["code"] == 0 and not rr["timeout"])))
             if rr["code"] != 0:
                 ck.fail("C05:crash:%s:O%d" % (b[0].key, o), "a program expected to terminate normally ended with status %s: %s" % (rr["code"], rr["err"][-300:]), dict(cases=[c.key for c in b], source=srcs[i]))
